@@ -418,4 +418,538 @@ theorem inBlock_ins {α} (f : St → α × St) (st : St) (n : Nat)
   have hne : (f st.push).2.blocks ≠ [] := ne_nil_of_length_eq hlen (by simp [St.push])
   simp [St.ins_pop _ n hne]
 
+theorem insInv : ∀ fuel, InsInv fuel
+  | 0 => by constructor <;> intros <;> simp [evalS, evalArgsS, callS, bindParamsS, stmtS, blockS, ifS, whileS]
+  | fuel + 1 => by
+    have ih := insInv fuel
+    have il := lenInv fuel
+    constructor
+    · -- eval
+      intro n e st
+      cases e with
+      | lit v => simp [evalS]
+      | var x =>
+        simp only [evalS, St.ins_blocks, getVar_ins]
+        split <;> rfl
+      | bin op a b =>
+        simp only [evalS]
+        rw [ih.eval n a st]
+        rcases evalS fuel a st with ⟨_ | va, st1⟩
+        · rfl
+        · cases va with
+          | null => rfl
+          | int i =>
+            simp only []
+            rw [ih.eval n b st1]
+            rcases evalS fuel b st1 with ⟨_ | vb, st2⟩ <;> rfl
+          | tern t =>
+            simp only []
+            rw [ih.eval n b st1]
+            rcases evalS fuel b st1 with ⟨_ | vb, st2⟩ <;> rfl
+      | call f args =>
+        simp only [evalS, St.ins_blocks, getFn_ins]
+        cases getFn f st.blocks with
+        | none => rfl
+        | some d =>
+          simp only []
+          split
+          · rw [ih.args n args st]
+            rcases evalArgsS fuel args st with ⟨_ | vs, st1⟩
+            · rfl
+            · simp only []
+              rw [ih.call n d vs st1]
+          · rfl
+    · -- args
+      intro n es st
+      cases es with
+      | nil => simp [evalArgsS]
+      | cons e es =>
+        simp only [evalArgsS]
+        rw [ih.eval n e st]
+        rcases evalS fuel e st with ⟨_ | v, st1⟩
+        · rfl
+        · simp only []
+          rw [ih.args n es st1]
+          rcases evalArgsS fuel es st1 with ⟨_ | vs, st2⟩ <;> rfl
+    · -- call
+      intro n d as st
+      simp only [callS]
+      apply inBlock_ins
+      · split
+        · have := il.bind d.params as st.push
+          have := il.block d.body
+          split
+          · grind
+          · split <;> grind
+        · rfl
+      · split
+        · rw [ih.bind n d.params as st.push (by simp [St.push])]
+          have hb := il.bind d.params as st.push
+          rcases hB : bindParamsS fuel d.params as st.push with ⟨_ | e, s1⟩
+          · simp only []
+            rw [hB] at hb
+            have hne : s1.blocks ≠ [] := ne_nil_of_length_eq hb (by simp [St.push])
+            rw [ih.block n d.body s1 hne]
+            rcases blockS fuel d.body s1 with ⟨o, s2⟩
+            cases o <;> rfl
+          · rfl
+        · rfl
+    · -- bind
+      intro n ps as st hne
+      cases ps with
+      | nil => simp [bindParamsS]
+      | cons p ps =>
+        cases as with
+        | cons a as =>
+          simp only [bindParamsS, St.ins_blocks, declareVar_ins _ _ n st.blocks hne]
+          cases hd : declareVar p.name a st.blocks with
+          | none => rfl
+          | some bs =>
+            simp only [Option.map]
+            have := declareVar_length hd
+            exact ih.bind n ps as { st with blocks := bs } (ne_nil_of_length_eq this hne)
+        | nil =>
+          obtain ⟨pn, pd⟩ := p
+          cases pd with
+          | none =>
+            simp only [bindParamsS, St.ins_blocks, declareVar_ins _ _ n st.blocks hne]
+            cases hd : declareVar pn (.tern .T) st.blocks with
+            | none => rfl
+            | some bs =>
+              simp only [Option.map]
+              have := declareVar_length hd
+              exact ih.bind n ps [] { st with blocks := bs } (ne_nil_of_length_eq this hne)
+          | some e =>
+            simp only [bindParamsS]
+            rw [ih.eval (n + 1) e st]
+            have hl := il.eval e st
+            rcases hE : evalS fuel e st with ⟨_ | v, st1⟩
+            · rfl
+            · rw [hE] at hl
+              have hne1 : st1.blocks ≠ [] := ne_nil_of_length_eq hl hne
+              simp only [St.ins_blocks, declareVar_ins _ _ n st1.blocks hne1]
+              cases hd : declareVar pn v st1.blocks with
+              | none => rfl
+              | some bs =>
+                simp only [Option.map]
+                have := declareVar_length hd
+                exact ih.bind n ps [] { st1 with blocks := bs } (ne_nil_of_length_eq this hne1)
+    · -- stmt
+      intro n s st hne
+      cases s with
+      | decl x e =>
+        simp only [stmtS]
+        rw [ih.eval (n + 1) e st]
+        have hl := il.eval e st
+        rcases hE : evalS fuel e st with ⟨_ | v, st1⟩
+        · rfl
+        · rw [hE] at hl
+          have hne1 : st1.blocks ≠ [] := ne_nil_of_length_eq hl hne
+          simp only [St.ins_blocks, declareVar_ins _ _ n st1.blocks hne1]
+          cases declareVar x v st1.blocks <;> rfl
+      | assign x e =>
+        simp only [stmtS]
+        rw [ih.eval (n + 1) e st]
+        rcases evalS fuel e st with ⟨_ | v, st1⟩
+        · rfl
+        · simp only [St.ins_blocks, setVar_ins]
+          cases setVar x v st1.blocks <;> rfl
+      | dispose x =>
+        simp only [stmtS, St.ins_blocks, disposeVar_ins]
+        cases disposeVar x st.blocks <;> rfl
+      | print e =>
+        simp only [stmtS]
+        rw [ih.eval (n + 1) e st]
+        rcases evalS fuel e st with ⟨_ | v, st1⟩ <;> rfl
+      | ifs br els => simp only [stmtS]; exact ih.ifs n br els st hne
+      | «while» c body => simp only [stmtS]; exact ih.whl n c body st hne
+      | brk => simp [stmtS]
+      | cont => simp [stmtS]
+      | exit => simp [stmtS]
+      | ret e =>
+        simp only [stmtS]
+        rw [ih.eval (n + 1) e st]
+        rcases evalS fuel e st with ⟨_ | v, st1⟩ <;> rfl
+      | declFn f ps body =>
+        simp only [stmtS, St.ins_blocks, declareFn_ins _ _ n st.blocks hne]
+        cases declareFn f ⟨ps, body⟩ st.blocks <;> rfl
+      | disposeFn f =>
+        simp only [stmtS, St.ins_blocks, disposeFn_ins]
+        cases disposeFn f st.blocks <;> rfl
+    · -- block
+      intro n ss st hne
+      cases ss with
+      | nil => simp [blockS]
+      | cons s rest =>
+        simp only [blockS]
+        rw [ih.stmt n s st hne]
+        have hl := il.stmt s st
+        rcases hS : stmtS fuel s st with ⟨o, st1⟩
+        rw [hS] at hl
+        have hne1 : st1.blocks ≠ [] := ne_nil_of_length_eq hl hne
+        cases o <;> first | rfl | exact ih.block n rest st1 hne1
+    · -- ifs
+      intro n br els st hne
+      cases br with
+      | nil =>
+        simp only [ifS]
+        cases els with
+        | nil => rfl
+        | cons s ss =>
+          simp only []
+          exact inBlock_ins _ st (n + 1) (il.block _ _) (ih.block (n + 1) _ st.push (by simp [St.push]))
+      | cons cb more =>
+        obtain ⟨c, body⟩ := cb
+        simp only [ifS]
+        rw [ih.eval (n + 1) c st]
+        have hl := il.eval c st
+        rcases hE : evalS fuel c st with ⟨_ | v, st1⟩
+        · rfl
+        · rw [hE] at hl
+          have hne1 : st1.blocks ≠ [] := ne_nil_of_length_eq hl hne
+          simp only []
+          cases v.ternary with
+          | T => exact inBlock_ins _ st1 (n + 1) (il.block _ _) (ih.block (n + 1) _ st1.push (by simp [St.push]))
+          | F => exact ih.ifs n more els st1 hne1
+          | U => exact ih.ifs n more els st1 hne1
+    · -- while
+      intro n c body st hne
+      simp only [whileS]
+      rw [ih.eval (n + 1) c st]
+      have hl := il.eval c st
+      rcases hE : evalS fuel c st with ⟨_ | v, st1⟩
+      · rfl
+      · rw [hE] at hl
+        have hne1 : st1.blocks ≠ [] := ne_nil_of_length_eq hl hne
+        simp only []
+        cases v.ternary with
+        | T =>
+          simp only []
+          rw [inBlock_ins _ st1 (n + 1) (il.block _ _) (ih.block (n + 1) _ st1.push (by simp [St.push]))]
+          have hl2 := inBlock_length (blockS fuel body) st1 (il.block _ _)
+          rcases hB : inBlock (blockS fuel body) st1 with ⟨o, st2⟩
+          rw [hB] at hl2
+          have hne2 : st2.blocks ≠ [] := ne_nil_of_length_eq hl2 hne1
+          cases o <;> first | rfl | exact ih.whl n c body st2 hne2
+        | F => rfl
+        | U => rfl
+
+/-! ## `refInv`: the implementation-shaped interpreter refines the reference semantics -/
+
+/-- what the caller of a Processor method relies on about the processor's `returnVal` -/
+structure RvOk (rv : Option SVal) (r : PRes) : Prop where
+  keep : r.err = none → r.flow ≠ .ret → r.rv = rv
+  set : r.err = none → r.flow = .ret → r.rv ≠ none
+  twe : r.err = none → r.flow ≠ .terminateWithError
+
+/-- a result of the implementation-shaped interpreter agrees with a result of the reference semantics -/
+structure Sim (rv : Option SVal) (r : PRes) (p : Outcome × St) : Prop where
+  st : r.st = p.2
+  out : r.outcome = p.1
+  rvok : RvOk rv r
+
+theorem Sim.fail (e : Err) (rv : Option SVal) (st : St) : Sim rv (PRes.fail e rv st) (.err e, st) :=
+  ⟨rfl, rfl, ⟨by simp [PRes.fail], by simp [PRes.fail], by simp [PRes.fail]⟩⟩
+
+theorem Sim.ok (rv : Option SVal) (st : St) : Sim rv (PRes.ok rv st) (.normal, st) :=
+  ⟨rfl, rfl, ⟨by simp [PRes.ok], by simp [PRes.ok], by simp [PRes.ok]⟩⟩
+
+/-- executeChild: the child's block is dropped, its returnVal copied when set -/
+theorem Sim.child {rv : Option SVal} {r : PRes} {p : Outcome × St} (h : Sim none r p) :
+    Sim rv { r with rv := (match r.rv with | some v => some v | none => rv), st := r.st.pop } (p.1, p.2.pop) := by
+  obtain ⟨hst, hout, hk, hs, ht⟩ := h
+  obtain ⟨flow, err, rv', st'⟩ := r
+  simp only at hst hout hk hs ht
+  subst hst
+  refine ⟨rfl, ?_, ⟨?_, ?_, ?_⟩⟩
+  · rw [← hout]
+    cases err with
+    | some e => rfl
+    | none =>
+      cases flow <;> try rfl
+      have := hs rfl rfl
+      cases rv' with
+      | none => exact absurd rfl this
+      | some v => rfl
+  · intro he hf
+    simp only at he hf ⊢
+    rw [hk he hf]
+  · intro he hf
+    simp only at he hf ⊢
+    have := hs he hf
+    cases rv' with
+    | none => exact absurd rfl this
+    | some v => simp
+  · intro he
+    exact ht he
+
+structure RefInv (fuel : Nat) : Prop where
+  eval : ∀ e st, evalI fuel e st = evalS fuel e st
+  args : ∀ es st, evalArgsI fuel es st = evalArgsS fuel es st
+  call : ∀ d as st, callI fuel d as st = callS fuel d as st
+  bind : ∀ ps as st, bindParamsI fuel ps as st = bindParamsS fuel ps as st
+  stmt : ∀ s rv st, Sim rv (stmtI fuel s rv st) (stmtS fuel s st)
+  block : ∀ ss rv st, Sim rv (executeI fuel ss rv st) (blockS fuel ss st)
+  ifs : ∀ br els rv st, Sim rv (ifI fuel br els rv st) (ifS fuel br els st)
+  whl : ∀ c body rv b bs out,
+    let r := whileI fuel c body rv none ⟨b :: bs, out⟩
+    let p := whileS fuel c body ⟨bs, out⟩
+    r.st.blocks.tail = p.2.blocks ∧ r.st.blocks ≠ [] ∧ r.st.out = p.2.out ∧ r.outcome = p.1 ∧ RvOk rv r
+
+theorem refInv : ∀ fuel, RefInv fuel
+  | 0 => by
+    constructor
+    · intros; simp [evalI, evalS]
+    · intros; simp [evalArgsI, evalArgsS]
+    · intros; simp [callI, callS]
+    · intros; simp [bindParamsI, bindParamsS]
+    · intros; simp only [stmtI, stmtS]; exact Sim.fail _ _ _
+    · intros; simp only [executeI, blockS]; exact Sim.fail _ _ _
+    · intros; simp only [ifI, ifS]; exact Sim.fail _ _ _
+    · intro c body rv b bs out
+      simp only [whileI, whileS]
+      refine ⟨rfl, by simp [PRes.fail], rfl, rfl, (Sim.fail _ _ _).rvok⟩
+  | fuel + 1 => by
+    have ih := refInv fuel
+    have il := lenInv fuel
+    have ii := insInv fuel
+    constructor
+    · -- eval
+      intro e st
+      cases e with
+      | lit v => simp [evalI, evalS]
+      | var x => simp [evalI, evalS]
+      | bin op a b => simp only [evalI, evalS, ih.eval]
+      | call f args => simp only [evalI, evalS, ih.args, ih.call]
+    · -- args
+      intro es st
+      cases es with
+      | nil => simp [evalArgsI, evalArgsS]
+      | cons e es => simp only [evalArgsI, evalArgsS, ih.eval, ih.args]
+    · -- call
+      intro d as st
+      simp only [callI, callS, inBlock]
+      split
+      · rw [ih.bind]
+        rcases bindParamsS fuel d.params as st.push with ⟨_ | e, s1⟩
+        · simp only []
+          have hsim := ih.block d.body none s1
+          rcases hB : blockS fuel d.body s1 with ⟨o, s2⟩
+          rw [hB] at hsim
+          generalize executeI fuel d.body none s1 = p at hsim
+          obtain ⟨hst, hout, hk, hs, ht⟩ := hsim
+          obtain ⟨flow, err, rv', st'⟩ := p
+          simp only at hst hout hk hs ht
+          subst hst
+          cases err with
+          | some e => simp [PRes.outcome] at hout; subst hout; rfl
+          | none =>
+            cases flow with
+            | ret =>
+              have := hs rfl rfl
+              cases rv' with
+              | none => exact absurd rfl this
+              | some v => simp [PRes.outcome] at hout; subst hout; rfl
+            | terminateWithError => exact absurd rfl (ht rfl)
+            | _ =>
+              have := hk rfl (by simp)
+              subst this
+              simp [PRes.outcome] at hout
+              subst hout
+              rfl
+        · rfl
+      · rfl
+    · -- bind
+      intro ps as st
+      cases ps with
+      | nil => simp [bindParamsI, bindParamsS]
+      | cons p ps =>
+        cases as with
+        | cons a as => simp only [bindParamsI, bindParamsS, ih.bind]
+        | nil => simp only [bindParamsI, bindParamsS, ih.eval, ih.bind]
+    · -- stmt
+      intro s rv st
+      cases s with
+      | decl x e =>
+        simp only [stmtI, stmtS, ih.eval]
+        rcases evalS fuel e st with ⟨_ | v, st1⟩
+        · exact Sim.fail _ _ _
+        · simp only []
+          cases declareVar x v st1.blocks with
+          | none => exact Sim.fail _ _ _
+          | some bs => exact Sim.ok _ _
+      | assign x e =>
+        simp only [stmtI, stmtS, ih.eval]
+        rcases evalS fuel e st with ⟨_ | v, st1⟩
+        · exact Sim.fail _ _ _
+        · simp only []
+          cases setVar x v st1.blocks with
+          | none => exact Sim.fail _ _ _
+          | some bs => exact Sim.ok _ _
+      | dispose x =>
+        simp only [stmtI, stmtS]
+        cases disposeVar x st.blocks with
+        | none => exact Sim.fail _ _ _
+        | some bs => exact Sim.ok _ _
+      | print e =>
+        simp only [stmtI, stmtS, ih.eval]
+        rcases evalS fuel e st with ⟨_ | v, st1⟩
+        · exact Sim.fail _ _ _
+        · exact Sim.ok _ _
+      | ifs br els => simp only [stmtI, stmtS]; exact ih.ifs br els rv st
+      | «while» c body =>
+        obtain ⟨blocks, out⟩ := st
+        simp only [stmtI, stmtS, St.push]
+        have hw := ih.whl c body rv Block.empty blocks out
+        simp only at hw
+        generalize whileI fuel c body rv none ⟨Block.empty :: blocks, out⟩ = r at hw
+        generalize whileS fuel c body ⟨blocks, out⟩ = p at hw
+        obtain ⟨h1, _, h3, h4, hk, hs, ht⟩ := hw
+        obtain ⟨flow, err, rv', st'⟩ := r
+        obtain ⟨o, ⟨pb, po⟩⟩ := p
+        simp only at h1 h3 h4 hk hs ht
+        refine ⟨?_, h4, ⟨hk, hs, ht⟩⟩
+        simp only [St.pop, h1, h3]
+      | brk => simp only [stmtI, stmtS]; exact ⟨rfl, rfl, ⟨by simp, by simp, by simp⟩⟩
+      | cont => simp only [stmtI, stmtS]; exact ⟨rfl, rfl, ⟨by simp, by simp, by simp⟩⟩
+      | exit => simp only [stmtI, stmtS]; exact ⟨rfl, rfl, ⟨by simp, by simp, by simp⟩⟩
+      | ret e =>
+        simp only [stmtI, stmtS, ih.eval]
+        rcases evalS fuel e st with ⟨_ | v, st1⟩
+        · exact Sim.fail _ _ _
+        · exact ⟨rfl, rfl, ⟨by simp, by simp, by simp⟩⟩
+      | declFn f ps body =>
+        simp only [stmtI, stmtS]
+        cases declareFn f ⟨ps, body⟩ st.blocks with
+        | error e => exact Sim.fail _ _ _
+        | ok bs => exact Sim.ok _ _
+      | disposeFn f =>
+        simp only [stmtI, stmtS]
+        cases disposeFn f st.blocks with
+        | none => exact Sim.fail _ _ _
+        | some bs => exact Sim.ok _ _
+    · -- block
+      intro ss rv st
+      cases ss with
+      | nil => simp only [executeI, blockS]; exact Sim.ok _ _
+      | cons s rest =>
+        simp only [executeI, blockS]
+        have hsim := ih.stmt s rv st
+        generalize stmtI fuel s rv st = r at hsim
+        rcases hS : stmtS fuel s st with ⟨o, st1⟩
+        rw [hS] at hsim
+        obtain ⟨hst, hout, hk, hs, ht⟩ := hsim
+        obtain ⟨flow, err, rv', st'⟩ := r
+        simp only at hst hout hk hs ht
+        subst hst
+        cases err with
+        | some e =>
+          simp [PRes.outcome] at hout; subst hout
+          exact ⟨rfl, rfl, ⟨hk, hs, ht⟩⟩
+        | none =>
+          cases flow with
+          | terminate =>
+            simp [PRes.outcome] at hout; subst hout
+            have := hk rfl (by simp); subst this
+            exact ih.block rest rv' st'
+          | terminateWithError => exact absurd rfl (ht rfl)
+          | ret =>
+            cases rv' with
+            | none => exact absurd rfl (hs rfl rfl)
+            | some v =>
+              simp [PRes.outcome] at hout; subst hout
+              exact ⟨rfl, rfl, ⟨hk, hs, ht⟩⟩
+          | exit =>
+            simp [PRes.outcome] at hout; subst hout
+            exact ⟨rfl, rfl, ⟨hk, hs, ht⟩⟩
+          | brk =>
+            simp [PRes.outcome] at hout; subst hout
+            exact ⟨rfl, rfl, ⟨hk, hs, ht⟩⟩
+          | cont =>
+            simp [PRes.outcome] at hout; subst hout
+            exact ⟨rfl, rfl, ⟨hk, hs, ht⟩⟩
+    · -- ifs
+      intro br els rv st
+      cases br with
+      | nil =>
+        simp only [ifI, ifS]
+        cases els with
+        | nil => exact Sim.ok _ _
+        | cons s ss =>
+          simp only [inBlock]
+          exact Sim.child (ih.block (s :: ss) none st.push)
+      | cons cb more =>
+        obtain ⟨c, body⟩ := cb
+        simp only [ifI, ifS, ih.eval]
+        rcases evalS fuel c st with ⟨_ | v, st1⟩
+        · exact Sim.fail _ _ _
+        · simp only []
+          cases v.ternary with
+          | T => simp only [inBlock]; exact Sim.child (ih.block body none st1.push)
+          | F => exact ih.ifs more els rv st1
+          | U => exact ih.ifs more els rv st1
+    · -- while
+      intro c body rv b bs out
+      simp only [whileI, whileS, St.clearCurrent]
+      rw [ih.eval]
+      have hins := ii.eval 0 c ⟨bs, out⟩
+      simp only [St.ins, ins_zero] at hins
+      rw [hins]
+      rcases evalS fuel c ⟨bs, out⟩ with ⟨_ | v, st1⟩
+      · exact ⟨rfl, by simp [PRes.fail], rfl, rfl, (Sim.fail _ _ _).rvok⟩
+      · simp only []
+        cases v.ternary with
+        | F => exact ⟨rfl, by simp [PRes.ok], rfl, rfl, (Sim.ok _ _).rvok⟩
+        | U => exact ⟨rfl, by simp [PRes.ok], rfl, rfl, (Sim.ok _ _).rvok⟩
+        | T =>
+          simp only [inBlock, St.push]
+          have hsim := ih.block body none st1.push
+          have hlen := il.block body st1.push
+          simp only [St.push] at hsim hlen
+          generalize executeI fuel body none ⟨Block.empty :: st1.blocks, st1.out⟩ = r at hsim
+          rcases hB : blockS fuel body ⟨Block.empty :: st1.blocks, st1.out⟩ with ⟨o, s2⟩
+          rw [hB] at hsim hlen
+          obtain ⟨hst, hout, hk, hs, ht⟩ := hsim
+          obtain ⟨flow, err, rv', st'⟩ := r
+          simp only at hst hout hk hs ht hlen
+          subst hst
+          obtain ⟨blocks2, out2⟩ := st'
+          simp only [List.length_cons] at hlen
+          cases blocks2 with
+          | nil => simp at hlen
+          | cons b2 bs2 =>
+            cases err with
+            | some e =>
+              simp [PRes.outcome] at hout; subst hout
+              simp only [St.pop, List.tail_cons]
+              exact ⟨rfl, by simp [PRes.fail], rfl, rfl, (Sim.fail _ _ _).rvok⟩
+            | none =>
+              cases flow with
+              | terminate =>
+                simp [PRes.outcome] at hout; subst hout
+                have := hk rfl (by simp); subst this
+                simp only [St.pop, List.tail_cons]
+                exact ih.whl c body rv b2 bs2 out2
+              | cont =>
+                simp [PRes.outcome] at hout; subst hout
+                have := hk rfl (by simp); subst this
+                simp only [St.pop, List.tail_cons]
+                exact ih.whl c body rv b2 bs2 out2
+              | terminateWithError => exact absurd rfl (ht rfl)
+              | brk =>
+                simp [PRes.outcome] at hout; subst hout
+                simp only [St.pop, List.tail_cons]
+                exact ⟨rfl, by simp [PRes.ok], rfl, rfl, (Sim.ok _ _).rvok⟩
+              | exit =>
+                simp [PRes.outcome] at hout; subst hout
+                simp only [St.pop, List.tail_cons]
+                refine ⟨?_, ?_, ?_, ?_, ⟨?_, ?_, ?_⟩⟩ <;> simp [PRes.outcome]
+              | ret =>
+                cases rv' with
+                | none => exact absurd rfl (hs rfl rfl)
+                | some w =>
+                  simp [PRes.outcome] at hout; subst hout
+                  simp only [St.pop, List.tail_cons]
+                  refine ⟨?_, ?_, ?_, ?_, ⟨?_, ?_, ?_⟩⟩ <;> simp [PRes.outcome]
+
 end Csvq.Scope
